@@ -66,7 +66,8 @@ def import_lines(imports):
         names = sorted(i["names"])
         if i["style"] == "from":
             pre = "crate." if i["abs"] else ("." * (i["levels"] + 1) if i["levels"] else "")
-            lines.append(f"from {pre}{'.'.join(i['segs'])} import {', '.join(names)}")
+            items = [f"{n} as {n}_x" for n in names] if i.get("aliased") else names
+            lines.append(f"from {pre}{'.'.join(i['segs'])} import {', '.join(items)}")
         else:
             pre = "crate::" if i["abs"] else "super::" * i["levels"]
             for n in names:
@@ -74,13 +75,29 @@ def import_lines(imports):
     return lines
 
 
+def apply_aliases(text, names, kinds):
+    """refer to every aliased import by its local name N_x: calls of functions, every use of a type / trait name
+    (not a field access `.h`, not a field declaration / named argument `h:` / `h=`)"""
+    for n in names:
+        if kinds.get(n) == "fn":
+            text = re.sub(r"(?<![A-Za-z0-9_.])" + re.escape(n) + r"\(", n + "_x(", text)
+        else:
+            text = re.sub(r"(?<![A-Za-z0-9_.])" + re.escape(n) + r"(?![A-Za-z0-9_])(?!\s*[:=][^=])", n + "_x", text)
+    return text
+
+
+KINDS = {"obj": {"Shape": "trait", "Tagged": "trait", "HasV": "trait", "Sq": "model", "Rect": "class", "Base": "class", "Derived": "class",
+                 "Q2": "model", "h": "fn"},
+         "data": {"P": "model", "Q": "model", "Shape": "enum", "h": "fn", "safe_div": "fn", "maybe": "fn", "twice": "fn"}}
+
+
 def project_files(row, srcs, case_fns, main_calls):
     """-> {relative path: text}; main.incn also holds the case functions and main()"""
     files = {}
     for m in row["mods"]:
-        parts = import_lines(m["imports"])
-        if parts:
-            parts.append("")
+        imps = import_lines(m["imports"])
+        aliased = sorted({n for i in m["imports"] if i.get("aliased") for n in i["names"]})
+        parts = []
         for n in m["items"]:
             if n:
                 parts.append(("pub " if n in m["pubs"] else "") + srcs[n])
@@ -88,7 +105,10 @@ def project_files(row, srcs, case_fns, main_calls):
             parts += case_fns
             parts.append("def main() -> None:")
             parts += main_calls
-        files["/".join(m["file"])] = "\n".join(parts) + "\n"
+        body = "\n".join(parts) + "\n"
+        if aliased:
+            body = apply_aliases(body, aliased, KINDS[row["u"]])
+        files["/".join(m["file"])] = "\n".join(imps + ([""] if imps else [])) + ("\n" if imps else "") + body
     if row["cargo"]:
         files["Cargo.toml"] = "[package]\nname = \"proj\"\nversion = \"0.1.0\"\n"
     return files
